@@ -356,7 +356,8 @@ class StoreWorld(object):
 
 WRITE_FAULTS = [('CRASH', 'write'), ('ENOSPC', 'write'), ('EIO', 'write'), ('EACCES', 'open_w'), ('ENOSPC', 'mkdir'),
                 ('EIO', 'stat')]
-READ_FAULTS = [('EIO', 'listdir'), ('EIO', 'stat'), ('EIO', 'open_r'), ('EACCES', 'open_r'), ('EACCES', 'listdir')]
+READ_FAULTS = [('EIO', 'listdir'), ('EIO', 'stat'), ('EIO', 'open_r'), ('EACCES', 'open_r'), ('EACCES', 'listdir'), ('EIO', 'read'),
+               ('EIO', 'read'), ('VANISH', 'open_r')]
 
 
 def gen_fault(rng, table, max_nth=4):
